@@ -11,22 +11,10 @@ package main
 // the runtime, is the failing input.
 
 import (
-	"bytes"
-	"context"
-	"encoding/json"
 	"fmt"
-	"net"
 	"os"
-	"os/exec"
-	"path/filepath"
-	"regexp"
-	"strconv"
 	"strings"
-	"sync"
-	"sync/atomic"
-	"time"
 
-	smpp "github.com/M2MGateway/go-smpp"
 	"github.com/M2MGateway/go-smpp/pdu"
 )
 
@@ -38,16 +26,6 @@ func init() {
 		raceLoadMain()
 		os.Exit(0)
 	}
-}
-
-type raceSummary struct {
-	Workloads map[string]int `json:"workloads"`
-	Submits   int            `json:"submits"`
-	Sends     int            `json:"sends"`
-	Inbound   int            `json:"unsolicited"`
-	Pings     int            `json:"enquire_links"`
-	Problems  []string       `json:"problems"`
-	RaceBuild bool           `json:"race_build"`
 }
 
 func corrC06(r *Run) {
@@ -104,111 +82,7 @@ func corrC06(r *Run) {
 		c06LockTrace(r, ts, i)
 	}
 	// ---- dynamic
-	bin := filepath.Join(filepath.Dir(r.Dir), "harness_race")
-	if _, err := os.Stat(bin); err != nil {
-		fmt.Fprintln(os.Stderr, "race build of the harness not found:", bin)
-		os.Exit(2)
-	}
-	logBase := filepath.Join(r.Dir, "racelog")
-	old, _ := filepath.Glob(logBase + "*")
-	for _, f := range old {
-		_ = os.Remove(f)
-	}
-	cmd := exec.Command(bin, "raceload", r.Tier, strconv.FormatUint(r.Seed, 10), r.Dir)
-	cmd.Env = append(os.Environ(), "GORACE=halt_on_error=0 exitcode=0 log_path="+logBase)
-	var stdout, stderr bytes.Buffer
-	cmd.Stdout, cmd.Stderr = &stdout, &stderr
-	done := make(chan error, 1)
-	if err := cmd.Start(); err != nil {
-		fmt.Fprintln(os.Stderr, "cannot start the race build:", err)
-		os.Exit(2)
-	}
-	go func() { done <- cmd.Wait() }()
-	limit := 8 * time.Minute
-	if r.Quick {
-		limit = 150 * time.Second
-	}
-	var runErr error
-	select {
-	case runErr = <-done:
-	case <-time.After(limit):
-		_ = cmd.Process.Kill()
-		runErr = fmt.Errorf("race workload exceeded %s", limit)
-	}
-	var sum raceSummary
-	_ = json.Unmarshal(stdout.Bytes(), &sum)
-	for k, v := range sum.Workloads {
-		for i := 0; i < v; i++ {
-			r.Count(fmt.Sprintf("%s#%d", k, i), !strings.Contains(k, "submitters=1/"), "dynamic/"+k)
-		}
-	}
-	r.Sample(map[string]interface{}{"race_build": sum.RaceBuild, "submits": sum.Submits, "sends": sum.Sends, "unsolicited_pdus": sum.Inbound,
-		"enquire_links": sum.Pings, "workloads": sum.Workloads})
-	for _, p := range sum.Problems {
-		r.Notes = append(r.Notes, "race workload: "+p)
-	}
-	if !sum.RaceBuild && runErr == nil {
-		fmt.Fprintln(os.Stderr, "the race workload did not run in a -race build")
-		os.Exit(2)
-	}
-	// runtime abort
-	errText := stderr.String()
-	if m := regexp.MustCompile(`fatal error: (concurrent map[^\n]*)`).FindStringSubmatch(errText); m != nil {
-		r.Fail("runtime-fatal/concurrent-map-access", "the Go runtime aborted the workload: "+m[1], "raceload "+r.Tier+" seed "+fmt.Sprint(r.Seed),
-			tail(head(errText, 5000), 2500), "no runtime fatal error")
-	} else if runErr != nil {
-		if strings.Contains(errText, "go-smpp.(*Conn)") {
-			r.Fail("runtime-fatal/other", "the workload process died inside the library", "raceload "+r.Tier, tail(errText, 2500), "workload completes")
-		} else {
-			fmt.Fprintln(os.Stderr, "race workload failed:", runErr, "\n", tail(errText, 3000))
-			os.Exit(2)
-		}
-	}
-	// race reports
-	logs, _ := filepath.Glob(logBase + "*")
-	nRep, nLib := 0, 0
-	for _, f := range logs {
-		data, _ := os.ReadFile(f)
-		for _, rep := range strings.Split(string(data), "==================") {
-			if !strings.Contains(rep, "WARNING: DATA RACE") {
-				continue
-			}
-			nRep++
-			fn := raceLibraryAccess(rep)
-			if fn == "" {
-				continue
-			}
-			nLib++
-			r.Fail("race/"+fn, "the race detector reports a data race with an access made by go-smpp code", "raceload "+r.Tier+" seed "+fmt.Sprint(r.Seed),
-				strings.TrimSpace(head(rep, 3000)), "no report with a frame inside the library")
-		}
-	}
-	if nRep > nLib {
-		r.Notes = append(r.Notes, fmt.Sprintf("%d race reports without a racing access inside go-smpp (harness code): ignored for the verdict", nRep-nLib))
-	}
-}
-
-var raceFrame = regexp.MustCompile(`(?m)^  (\S+)\(\)$`)
-
-// raceLibraryAccess: the go-smpp function performing one of the two racing
-// accesses (innermost frame that is not Go runtime/library code), or "".
-func raceLibraryAccess(rep string) string {
-	// the first two stacks of a report are the two accesses
-	stacks := regexp.MustCompile(`(?m)^(?:Write|Read|Previous write|Previous read|Atomic write|Atomic read|Previous atomic write|Previous atomic read)[^\n]*:\n((?:  \S[^\n]*\n      [^\n]*\n)+)`).FindAllStringSubmatch(rep, -1)
-	for _, st := range stacks {
-		for _, m := range raceFrame.FindAllStringSubmatch(st[1], -1) {
-			fn := m[1]
-			if strings.HasPrefix(fn, "runtime.") || strings.HasPrefix(fn, "internal/") || strings.HasPrefix(fn, "sync.") ||
-				strings.HasPrefix(fn, "sync/") || strings.HasPrefix(fn, "reflect.") {
-				continue
-			}
-			if strings.HasPrefix(fn, libPrefix) {
-				return strings.TrimPrefix(strings.TrimPrefix(fn, libPrefix), ".")
-			}
-			break // the access was made by other code
-		}
-	}
-	return ""
+	c06Dynamic(r)
 }
 
 // c06LockTrace: a forced schedule (as in C05) whose model trace, with every
@@ -318,273 +192,3 @@ func permOf(r *Rng, n int) []int {
 	return p
 }
 
-// ---------------------------------------------------------------- the -race child
-func raceLoadMain() {
-	tier := "quick"
-	seed := uint64(1)
-	dir := os.TempDir()
-	if len(os.Args) > 2 {
-		tier = os.Args[2]
-	}
-	if len(os.Args) > 3 {
-		seed, _ = strconv.ParseUint(os.Args[3], 10, 64)
-	}
-	if len(os.Args) > 4 {
-		dir = os.Args[4]
-	}
-	sum := raceSummary{Workloads: map[string]int{}, RaceBuild: raceEnabled}
-	rng := &Rng{s: seed*0x9E3779B97F4A7C15 + 77}
-	ks := []int{1, 2, 4, 8, 16}
-	rounds := 8
-	per := 25
-	if tier == "thorough" {
-		rounds, per = 10, 60
-	}
-	for round := 0; round < rounds; round++ {
-		for _, k := range ks {
-			for _, custom := range []bool{false, true} {
-				label := fmt.Sprintf("readme/submitters=%d/custom-sequence=%v", k, custom)
-				if err := readmeWorkload(rng, k, per, custom, &sum); err != "" {
-					sum.Problems = append(sum.Problems, label+": "+err)
-				}
-				sum.Workloads[label]++
-			}
-		}
-	}
-	// forced schedules under the race detector
-	scratch := NewRun("C06race", tier, seed, filepath.Join(dir, "race_scratch"))
-	ts := pduTypes()
-	nf := 70
-	if tier == "thorough" {
-		nf = 120
-	}
-	for i := 0; i < nf; i++ {
-		c05Scenario(scratch, ts, i, 8)
-		c15Scenario(scratch, ts, i, c15Terms[i%len(c15Terms)])
-		c16Scenario(scratch, ts, i)
-	}
-	c15Witnesses(scratch)
-	// a response handed to the waiter while the request's own context ends: both branches of Submit's select are ready
-	nr := 400
-	if tier == "thorough" {
-		nr = 800
-	}
-	for i := 0; i < nr; i++ {
-		raceResponseVsContext(rng, ts, i)
-	}
-	sum.Workloads["forced/response-vs-own-context"] += nr
-	sum.Workloads["forced/C05"] += nf
-	sum.Workloads["forced/C15"] += nf
-	sum.Workloads["forced/C16"] += nf
-	for _, f := range scratch.Failures {
-		sum.Problems = append(sum.Problems, "forced schedule under -race: "+f.Class+": "+head(f.Observed, 200))
-	}
-	out, _ := json.Marshal(sum)
-	fmt.Println(string(out))
-}
-
-// raceResponseVsContext: Watch hands the response to the waiter while the caller is still inside its transport
-// Write; the caller's own context ends; the Write returns: Submit's select finds its response and its context
-// both ready (either outcome is fine — what matters here is that the two goroutines touch nothing unsynchronised).
-// Variant: the context ends first and the response is taken while the caller leaves.
-func raceResponseVsContext(rng *Rng, ts []pduType, idx int) {
-	w := NewWorld(true)
-	defer w.Shutdown()
-	w.StartWatch()
-	p := genSendable(rng, ts, true, 300)
-	c := w.Go(0, CallSpec{Kind: "submit", Seq: int32(500 + idx), P: p})[0]
-	if w.Stuck != "" {
-		return
-	}
-	resp := frameOf(respFor(p, c.Seq))
-	switch idx % 3 {
-	case 0:
-		w.T.Inject(resp, nil)
-		w.quiesce()
-		c.stop()
-		w.Release(c)
-	case 1:
-		c.stop()
-		w.T.Inject(resp, nil)
-		w.quiesce()
-		w.Release(c)
-	default: // caller already in its select: cancel and response at the same moment
-		w.Release(c)
-		go c.stop()
-		w.T.Inject(resp, nil)
-	}
-	w.WaitUntil(2*time.Second, func() bool { return w.Returned(c) })
-}
-
-// readmeWorkload: the usage the README prescribes, free-running, over an in-memory connection.
-func readmeWorkload(rng *Rng, k, per int, customSeq bool, sum *raceSummary) string {
-	cli, srv := net.Pipe()
-	var peerWG sync.WaitGroup
-	var wmu sync.Mutex
-	send := func(p interface{}) {
-		wmu.Lock()
-		_, _ = pdu.Marshal(srv, p)
-		wmu.Unlock()
-	}
-	stopPeer := make(chan struct{})
-	var unsolicited, pings int32
-	peerWG.Add(2)
-	go func() { // reader: answers every request, asynchronously
-		defer peerWG.Done()
-		for {
-			p, err := pdu.ReadPDU(srv)
-			if err != nil && p == nil {
-				return
-			}
-			if _, ok := p.(*pdu.EnquireLink); ok {
-				atomic.AddInt32(&pings, 1)
-			}
-			if rq, ok := p.(pdu.Responsable); ok {
-				resp := rq.Resp()
-				peerWG.Add(1)
-				go func() {
-					defer peerWG.Done()
-					send(resp)
-				}()
-			}
-		}
-	}()
-	bound := make(chan struct{})
-	go func() { // unsolicited traffic, once the session is bound
-		defer peerWG.Done()
-		seq := int32(1 << 20)
-		select {
-		case <-bound:
-		case <-stopPeer:
-			return
-		}
-		for {
-			select {
-			case <-stopPeer:
-				return
-			case <-time.After(150 * time.Microsecond):
-			}
-			seq++
-			d := &pdu.DeliverSM{Header: pdu.Header{Sequence: seq}, SourceAddr: pdu.Address{No: "100"}, DestAddr: pdu.Address{No: "200"}}
-			_ = d.Message.Compose("ping")
-			send(d)
-			atomic.AddInt32(&unsolicited, 1)
-		}
-	}()
-
-	conn := smpp.NewConn(context.Background(), cli)
-	conn.WriteTimeout = 5 * time.Second
-	conn.ReadTimeout = 5 * time.Second
-	if customSeq {
-		var n int32
-		conn.NextSequence = func() int32 { return atomic.AddInt32(&n, 1) }
-	}
-	var wg sync.WaitGroup
-	wg.Add(1)
-	go func() { defer wg.Done(); conn.Watch() }()
-	problem := ""
-	var pmu sync.Mutex
-	note := func(s string) {
-		pmu.Lock()
-		if problem == "" {
-			problem = s
-		}
-		pmu.Unlock()
-	}
-	if resp, err := conn.Submit(context.Background(), &pdu.BindTransceiver{SystemID: "id", Password: "pw", Version: pdu.SMPPVersion50}); err != nil {
-		note("bind: " + err.Error())
-	} else if _, ok := resp.(*pdu.BindTransceiverResp); !ok {
-		note(fmt.Sprintf("bind answered by %T", resp))
-	}
-	close(bound)
-	wg.Add(1)
-	go func() { defer wg.Done(); conn.EnquireLink(2*time.Millisecond, time.Second) }()
-	wg.Add(1)
-	go func() { // the README's event loop (leaving when the connection is done)
-		defer wg.Done()
-		for {
-			select {
-			case <-conn.Done():
-				return
-			case packet, ok := <-conn.PDU():
-				if !ok || packet == nil {
-					return
-				}
-				if p, ok := packet.(pdu.Responsable); ok {
-					_ = conn.Send(p.Resp())
-				}
-			}
-		}
-	}()
-	var subWG sync.WaitGroup
-	var submits, sends int32
-	sendSeq := int32(1 << 28)
-	for g := 0; g < k; g++ {
-		subWG.Add(1)
-		go func(g int) {
-			defer subWG.Done()
-			for i := 0; i < per; i++ {
-				packet := &pdu.SubmitSM{SourceAddr: pdu.Address{TON: 1, NPI: 1, No: "00919821"}, DestAddr: pdu.Address{TON: 1, NPI: 1, No: "99919821"}}
-				_ = packet.Message.Compose("Hello World!")
-				resp, err := conn.Submit(context.Background(), packet)
-				if err != nil {
-					note("submit: " + err.Error())
-					return
-				}
-				if pdu.ReadSequence(resp) != pdu.ReadSequence(packet) {
-					note(fmt.Sprintf("submit got sequence %d for %d", pdu.ReadSequence(resp), pdu.ReadSequence(packet)))
-				}
-				atomic.AddInt32(&submits, 1)
-				if i%5 == 4 {
-					if err := conn.Send(&pdu.EnquireLink{Header: pdu.Header{Sequence: atomic.AddInt32(&sendSeq, 1)}}); err != nil {
-						note("send: " + err.Error())
-					}
-					atomic.AddInt32(&sends, 1)
-				}
-			}
-		}(g)
-	}
-	// an impatient caller: its own context ends about when the response arrives
-	subWG.Add(1)
-	go func() {
-		defer subWG.Done()
-		for i := 0; i < per; i++ {
-			ctx, cancel := context.WithTimeout(context.Background(), time.Duration(20+i*7%180)*time.Microsecond)
-			packet := &pdu.SubmitSM{SourceAddr: pdu.Address{No: "1"}, DestAddr: pdu.Address{No: "2"}}
-			_ = packet.Message.Compose("hurry")
-			_, _ = conn.Submit(ctx, packet) // deadline exceeded is an acceptable outcome
-			cancel()
-		}
-	}()
-	finished := make(chan struct{})
-	go func() { subWG.Wait(); close(finished) }()
-	select {
-	case <-finished:
-	case <-time.After(60 * time.Second):
-		note("submitters did not finish within 60 s")
-	}
-	close(stopPeer)
-	if err := conn.Close(); err != nil {
-		note("close: " + err.Error())
-	}
-	all := make(chan struct{})
-	go func() { wg.Wait(); close(all) }()
-	select {
-	case <-all:
-	case <-time.After(10 * time.Second):
-		note("Watch / EnquireLink / consumer did not return within 10 s of Close")
-	}
-	_ = srv.Close()
-	_ = cli.Close()
-	peerDone := make(chan struct{})
-	go func() { peerWG.Wait(); close(peerDone) }()
-	select {
-	case <-peerDone:
-	case <-time.After(5 * time.Second):
-	}
-	sum.Submits += int(submits)
-	sum.Sends += int(sends)
-	sum.Inbound += int(atomic.LoadInt32(&unsolicited))
-	sum.Pings += int(atomic.LoadInt32(&pings))
-	return problem
-}
